@@ -218,6 +218,31 @@ func (w *world) opOverlappingPut() {
 	w.classes["overlapping-put"]++
 }
 
+// opBoundaryReopen: on a fresh queue, move the append position (production API SetAppendedSeq, the
+// follower-reset path) to just below an index-page boundary (262144 entries per index page), append
+// up to the last slot of the page, reopen there and keep appending.
+func (w *world) opBoundaryReopen() {
+	const perPage = 262144
+	k := rapid.IntRange(1, 3).Draw(w.t, "beforeBoundary")
+	page := int64(rapid.IntRange(1, 2).Draw(w.t, "indexPage"))
+	start := page*perPage - 1 - int64(k)
+	w.logf("setAppendedSeq %d (fresh queue), %d appends up to the last slot of index page %d, reopen, append", start, k, page-1)
+	w.q.SetAppendedSeq(start)
+	w.okPuts = int(start) + 1
+	for i := 0; i < k; i++ {
+		w.opPut()
+	}
+	w.check("before the boundary reopen")
+	w.opReopen()
+	w.check("after the boundary reopen")
+	n := rapid.IntRange(1, 3).Draw(w.t, "afterBoundary")
+	for i := 0; i < n; i++ {
+		w.opPut()
+		w.check("after an append behind the boundary reopen")
+	}
+	w.classes["reopen-at-index-page-boundary"]++
+}
+
 func (w *world) opReopen() {
 	w.logf("reopen")
 	w.q.Close()
@@ -347,6 +372,9 @@ func runHistory(t *rapid.T, thorough bool) {
 		_ = os.RemoveAll(dir)
 	}()
 	w.open()
+	if rapid.IntRange(0, 3).Draw(t, "startAtIndexPageBoundary") == 0 {
+		w.opBoundaryReopen()
+	}
 	t.Repeat(map[string]func(*rapid.T){
 		"put":            func(t *rapid.T) { w.t = t; w.opPut() },
 		"put2":           func(t *rapid.T) { w.t = t; w.opPut() },
